@@ -1,6 +1,7 @@
 """C03 - group laws: layout typing of Mul/Inv/Act/Act4, accessor / matrix-helper agreement, identity literals,
 SE3<->Sim3 and SO3<->RxSO3 forward isomorphism, result ltypes."""
 from .lie_common import *   # noqa
+from ..expr import rv
 from ..layout import Typer, Vec, Mat, extract_table, signatures, atoms_of
 
 R3 = ('g', 3)
@@ -204,7 +205,43 @@ def rule_dt(repo):
 
 
 def rules(repo, tier):
-    return [rule_layout(repo, 'C03.LT', lt_entries(), floor=16), rule_acc(repo), rule_id(repo), rule_sb(repo), rule_dt(repo), rule_nosign(repo)]
+    return [rule_layout(repo, 'C03.LT', lt_entries(), floor=16), rule_acc(repo), rule_id(repo), rule_sb(repo), rule_dt(repo), rule_nosign(repo), rule_mat(repo)]
+
+
+def rule_mat(repo):
+    res = RuleResult('C03.MAT', 'matrix() is the action on the basis vectors: Act applied to an identity matrix of the representation size '
+                     '(4 in general, 3 for SO3/so3), transposed back; algebra types go through Exp first; LieTensor.matrix dispatches to the type', floor=4)
+    for cname, size, via_exp in (('LieType', 4, 'conditional'), ('SO3Type', 3, False), ('so3Type', 3, True)):
+        f = repo.func(LT, cname + '.matrix')
+        rets = returns_of(f.node)
+        v = rv(f.node, rets[0]) if len(rets) == 1 else None
+        ok = False
+        why = 'not <X>.unsqueeze(-2).Act(I).transpose(-1, -2)'
+        if isinstance(v, ast.Call) and isinstance(v.func, ast.Attribute) and v.func.attr == 'transpose' and \
+                sorted(src(a) for a in v.args) == ['-1', '-2']:
+            act = v.func.value
+            if isinstance(act, ast.Call) and isinstance(act.func, ast.Attribute) and act.func.attr == 'Act' and len(act.args) == 1:
+                basis, recv = act.args[0], act.func.value
+                eyes = [n for n in ast.walk(basis) if isinstance(n, ast.Call) and dotted(n.func) == 'torch.eye']
+                n_ok = bool(eyes) and eyes[0].args and src(eyes[0].args[0]) == str(size)
+                unsq = isinstance(recv, ast.Call) and isinstance(recv.func, ast.Attribute) and recv.func.attr == 'unsqueeze' and \
+                    recv.args and src(recv.args[0]) == '-2'
+                base = recv.func.value if unsq else None
+                has_exp = base is not None and any(isinstance(n, ast.Call) and isinstance(n.func, ast.Attribute) and n.func.attr == 'Exp' for n in ast.walk(base))
+                exp_ok = has_exp if via_exp is True else (not has_exp if via_exp is False else isinstance(base, ast.IfExp) and has_exp)
+                ok = n_ok and unsq and exp_ok
+                why = None if ok else 'basis size ok: %s, acts on X.unsqueeze(-2): %s, Exp handling ok: %s' % (n_ok, unsq, exp_ok)
+        res.inst({'function': f.fq, 'basis': size, 'ok': ok}, f.fq)
+        if not ok:
+            res.add(Finding('C03.MAT', f, '%s.matrix is not the transposed action on the %dx%d identity (%s)' % (cname, size, size, why), construct='matrix'))
+    f = repo.func(LT, 'LieTensor.matrix')
+    rets = returns_of(f.node)
+    v = rv(f.node, rets[0]) if len(rets) == 1 else None
+    ok = isinstance(v, ast.Call) and dotted(v.func) == 'self.ltype.matrix' and [dotted(a) for a in v.args] == ['self']
+    res.inst({'function': f.fq, 'dispatches': ok}, f.fq)
+    if not ok:
+        res.add(Finding('C03.MAT', f, 'LieTensor.matrix must dispatch to self.ltype.matrix(self)', construct='dispatch'))
+    return res
 
 
 def rule_nosign(repo):
